@@ -242,7 +242,17 @@ fn cross_views(ty: Ty, t: &str, cx: &mut Ctx) -> Result<(), Failure> {
 	}
 	for (name, got) in views {
 		ensure!(got == t.as_bytes(), format!("out:{name}"), "{name}: {:?} instead of {:?}", String::from_utf8_lossy(&got), t);
-		cx.obs(1);
+		// the value handed out by an (unchecked) view into ANOTHER type is one the checked constructor of that
+		// type accepts: otherwise an ill-formed value has been obtained, whose own text cannot be read back
+		let target_ok = match std::str::from_utf8(&got) {
+			Ok(s) if name.ends_with("Iri>") || name.ends_with("as_iri") => Iri::new(s).is_ok(),
+			Ok(s) if name.ends_with("IriRef>") || name.ends_with("as_iri_ref") => IriRef::new(s).is_ok(),
+			Ok(s) if name.ends_with("UriRef>") || name.ends_with("as_uri_ref") => UriRef::new(s).is_ok(),
+			Ok(_) => true,
+			Err(_) => false,
+		};
+		ensure!(target_ok, format!("view-not-valid-in-target-type:{name}"), "{name}: the view of {:?} is a value its own type's checked constructor rejects", t);
+		cx.obs(2);
 	}
 	Ok(())
 }
